@@ -8,7 +8,7 @@ NOT_APPLICABLE = {}
 HOOK_COMMITS = ["c97a6ad", "2351cfe"]
 SAN = "runtime monitoring: "
 # checks that exist but are not yet green on the unchanged tree (triage pending) are not claimed
-NOT_READY = {"C27", "C19", "C08", "C10", "C28", "C15", "C24", "C26"}
+NOT_READY = {"C27", "C15", "C24", "C26", "C23", "C30"}
 
 
 def plan(pid):
@@ -395,8 +395,8 @@ def c25():
 @plan("C30")
 def c30():
     return Check("C30", [
-        Leg("lib-default", "c30", shards=(2, 8), crash_is_violation=True, timeout=(600, 2400)),
-        Leg("asan-lib", "c30", shards=(2, 8), tiers=("thorough",), crash_is_violation=True, timeout=(600, 3000), seed_offset=700),
+        Leg("lib-default", "c30", shards=(2, 8), crash_is_violation=True, timeout=(600, 2400), args={"no_caselog": 1}),
+        Leg("asan-lib", "c30", shards=(2, 8), tiers=("thorough",), crash_is_violation=True, timeout=(600, 3000), seed_offset=700, args={"no_caselog": 1}),
         Leg("miri-base", "c30", shards=(1, 2), tiers=("thorough",), timeout=MIRI_T),
     ])
 
